@@ -38,8 +38,13 @@ vars == <<kids, roots, bad, backlog, next, outstanding, seen, wst, wt, loaded, s
 SeqsUpTo(S, k) == UNION {[1..m -> S] : m \in 0..k}
 Data == [t \in Trees |-> <<100 + t, 100 + (t % 2)>>]     \* data blobs, some shared between trees
 
+\* all DAGs: tree t lists at most MaxKids subtree entries among the higher-numbered trees
+RECURSIVE AllDags(_)
+AllDags(t) == IF t > NT THEN {<<>>}
+              ELSE {<<k>> \o rest : k \in SeqsUpTo((t + 1)..NT, MaxKids), rest \in AllDags(t + 1)}
+
 Init ==
-  /\ kids \in {f \in [Trees -> SeqsUpTo(Trees, MaxKids)] : \A t \in Trees : \A i \in DOMAIN f[t] : f[t][i] > t}
+  /\ kids \in AllDags(1)
   /\ roots \in {s \in SeqsUpTo(Trees, MaxRoots) : s # <<>> /\ s[1] = 1}
   /\ bad \in IF WithBad THEN {{}} \cup {{t} : t \in Trees} ELSE {{}}
   /\ backlog = roots /\ next = 0 /\ outstanding = 0 /\ seen = {}
